@@ -21,6 +21,7 @@ CEX_MAIN {
   fprintf(stderr, "values:"); for (int i = 0; i < n; i++) fprintf(stderr, " %g", (double)vals[i]);
   fprintf(stderr, " -> has_min_max=%d min=%g max=%g\n", (int)w->has_min_max, (double)mn, (double)mx);
   for (int i = 0; i < n; i++) if (vals[i] == vals[i]) {
+    CEX_CHECK(w->has_min_max, "a number was added but no page bounds exist");
     CEX_CHECK(mn <= vals[i], "page min is not a lower bound of a non-NaN value (IEEE order)");
     CEX_CHECK(vals[i] <= mx, "page max is not an upper bound of a non-NaN value (IEEE order)");
   }
